@@ -51,4 +51,10 @@ def fsTouched : Node :=
 def fsDeep : Node :=
   .dir 7 [([97], .file [1, 2, 3] 0o644 t0 3 10), ([98], .dir 7 [([97], .file [8, 8] 0o644 t0 2 12)])]
 
+/-- `fsTouched` with the root now on another device (8) while `b/` is still on device 7
+(the root was replaced by a directory of another filesystem and the old `b/` is mounted
+in it). -/
+def fsMoved : Node :=
+  .dir 8 [([97], .file [4, 5, 6] 0o644 { sec := 101, nsec := 0 } 3 10), ([98], .dir 7 [([97], .file [9] 0o644 t0 1 11)])]
+
 end Mutagen.Proofs.ScanAccel
